@@ -2,7 +2,7 @@
 
 Logical content: per segment, per chunk, per channel/scaler a vector of values; per raw buffer random
 padding bytes.  encode() lays every chunk out as buffer after buffer, each buffer as rows of `width`
-bytes with every scaler's field at its declared byte offset (digital lines: the addressed bit)."""
+bytes with every scaler's field at its declared byte offset (digital lines: bit (offset % 8) of the integer read at byte offset // 8 with the declared type and byte order)."""
 import struct
 import numpy as np
 from .model import TOC, enc_str, rand_bytes, qpath
@@ -100,6 +100,8 @@ class DaqFile(object):
                     dt, size, _ = DQ[s['t']]
                     if self.digital:
                         byte, bit = s['bit'] // 8, s['bit'] % 8
+                        if e == '>':
+                            byte += size - 1          # the low-order byte of a big-endian field is its last byte
                         for r in range(n):
                             pos = r * w + byte
                             buf[pos] = (buf[pos] & ~(1 << bit) & 0xFF) | ((int(vals[r]) & 1) << bit)
@@ -197,6 +199,7 @@ def gen_daqmx(rng, max_chans=5, max_bufs=3, max_segs=3, allow_be=True, multi_buf
     f.digital = rng.random() < 0.25
     endians = [rng.choice('<>') if allow_be else '<' for _ in range(rng.randint(1, max_segs))]
     all_le = all(e == '<' for e in endians)
+    digital_type = rng.choice([0, 0, 2, 4])       # one sample type for all digital lines of a file (keeps their bits disjoint)
     buflen = [rng.choice(lens) for _ in range(nbuf)]
     used = [0] * nbuf
     bitused = [0] * nbuf
@@ -211,7 +214,7 @@ def gen_daqmx(rng, max_chans=5, max_bufs=3, max_segs=3, allow_be=True, multi_buf
                 b = rng.choice([i for i in range(nbuf) if buflen[i] == buflen[b0]])
             sid = sidx if rng.random() < 0.7 else sidx + 3 * (c + 1)
             if f.digital:
-                tcode = rng.choice([0, 0, 2, 4]) if all_le else 0
+                tcode = digital_type
                 bit = bitused[b] + rng.randint(0, 3)
                 bitused[b] = bit + 1
                 used[b] = max(used[b], bit // 8 + DQ[tcode][1])
